@@ -38,7 +38,28 @@ fn c16_take_segments_step_any_n() {
 }
 
 fn take_segments_step(n: usize) {
-    const N: usize = 24;
+    take_segments_step_n::<24>(n);
+}
+
+/// Thorough rung: the same step over contents of up to 96 bytes.
+#[kani::proof]
+#[kani::unwind(4)]
+fn c16_take_segments_step_any_n_96() {
+    let n: usize = kani::any();
+    kani::assume(n >= 1);
+    take_segments_step_n::<96>(n);
+}
+
+/// Thorough rung: contents of up to 4096 bytes (several MTU-sized datagrams).
+#[kani::proof]
+#[kani::unwind(4)]
+fn c16_take_segments_step_any_n_4096() {
+    let n: usize = kani::any();
+    kani::assume(n >= 1);
+    take_segments_step_n::<4096>(n);
+}
+
+fn take_segments_step_n<const N: usize>(n: usize) {
     let buf: [u8; N] = kani::any();
     let (contents, len) = any_bytes(&buf);
     let ss: Option<NonZeroU16> = kani::any();
